@@ -11,7 +11,7 @@
 (*   Enc*(tree)  : tree -> bytes                                             *)
 (*   Walk*(b)    : bytes -> BOOLEAN, a TLV walker that knows only declared   *)
 (*                 lengths, alignment, zero padding and legal type codes.    *)
-EXTENDS Registry
+EXTENDS Registry, PktWire
 Has(r, f) == f \in DOMAIN r
 U16(b) == b[1] * 256 + b[2]
 Bool01(x) == IF x THEN 1 ELSE 0
@@ -30,18 +30,23 @@ WithLen(b) == << b[1], b[2] >> \o BE16(Len(b)) \o SubSeq(b, 5, Len(b))
 Nx(subtype, body) == WithLen(Pad8(<<255, 255, 0, 0>> \o NxVendor \o BE16(subtype) \o body))
 Std(type, body) == WithLen(BE16(type) \o <<0, 0>> \o body)
 
-LearnSpecHeader(s) == BE16(s.Src * 8192 + s.Dst * 2048 + s.NBits)
+\* a learn flow-mod spec, either as built (Src, Dst, NBits given) or as projected from a Go value (Header.raw = the 2 header bytes)
+SpecHdr(s) == IF Has(s, "Header") THEN s.Header.raw ELSE BE16(s.Src * 8192 + s.Dst * 2048 + s.NBits)
+SpecSrc(s) == (U16(SpecHdr(s)) \div 8192) % 2
+SpecDst(s) == (U16(SpecHdr(s)) \div 2048) % 4
 EncLearnField(f) == HeaderWord(f.Field) \o f.Ofs
-EncLearnSpec(s) == LearnSpecHeader(s)
-                   \o (IF s.Src = 1 THEN s.SrcValue ELSE EncLearnField(s.SrcField))
-                   \o (IF s.Dst # 2 THEN EncLearnField(s.DstField) ELSE <<>>)
+EncLearnSpec(s) == SpecHdr(s)
+                   \o (IF SpecSrc(s) = 1 THEN s.SrcValue ELSE EncLearnField(s.SrcField))
+                   \o (IF SpecDst(s) # 2 THEN EncLearnField(s.DstField) ELSE <<>>)
 NatPresent(a) == Bool01(Has(a, "IPv4Min")) + 2 * Bool01(Has(a, "IPv4Max")) + 4 * Bool01(Has(a, "IPv6Min"))
                  + 8 * Bool01(Has(a, "IPv6Max")) + 16 * Bool01(Has(a, "ProtoMin")) + 32 * Bool01(Has(a, "ProtoMax"))
 Opt(a, f) == IF Has(a, f) THEN a[f] ELSE <<>>
 
 RECURSIVE EncAction(_)
 EncActions(as) == Flat([i \in DOMAIN as |-> EncAction(as[i])])
+\* kinds that keep state in unexported fields are projected with their own encoding ("raw"), which is then taken as is
 EncAction(a) ==
+  IF Has(a, "raw") /\ a.T \in {"NXActionCTNAT", "NXActionConnTrack", "NXActionDecTTLCntIDs", "NXActionDecTTL"} THEN a.raw ELSE
   CASE a.T = "ActionOutput"    -> Std(0, a.Port \o a.MaxLen \o Zeros(6))
     [] a.T = "ActionSetqueue"  -> Std(21, a.QueueId)
     [] a.T = "ActionGroup"     -> Std(22, a.GroupId)
@@ -109,15 +114,15 @@ EncMpBody(b) ==
 EncMsg(m) ==
   CASE m.T = "Header"       -> Msg(m.Type[1], m.Xid, <<>>)
     [] m.T = "Hello"        -> Msg(0, m.Header.Xid, EncList(EncHelloElem, m.Elements))
-    [] m.T = "ErrorMsg"     -> Msg(1, m.Header.Xid, m.Type \o m.Code \o m.Data)
-    [] m.T = "VendorError"  -> Msg(1, m.Header.Xid, <<255, 255>> \o m.Code \o m.ExperimenterID \o m.Data)
+    [] m.T = "ErrorMsg"     -> Msg(1, m.Header.Xid, m.Type \o m.Code \o m.Data.B)
+    [] m.T = "VendorError"  -> Msg(1, m.Header.Xid, m.Type \o m.Code \o m.ExperimenterID \o m.Data.B)
     [] m.T = "SwitchConfig" -> Msg(m.Header.Type[1], m.Header.Xid, m.Flags \o m.MissSendLen)       \* 9 set-config, 8 get-config reply
     [] m.T = "FlowMod"      -> Msg(14, m.Header.Xid, m.Cookie \o m.CookieMask \o m.TableId \o m.Command \o m.IdleTimeout \o m.HardTimeout
                                    \o m.Priority \o m.BufferId \o m.OutPort \o m.OutGroup \o m.Flags \o Zeros(2)
                                    \o EncMatch(m.Match) \o EncInstrs(m.Instructions))
     [] m.T = "GroupMod"     -> Msg(15, m.Header.Xid, m.Command \o m.Type \o <<0>> \o m.GroupId \o EncList(EncBucket, m.Buckets))
     [] m.T = "PacketOut"    -> LET acts == EncActions(m.Actions) IN
-                               Msg(13, m.Header.Xid, m.BufferId \o m.InPort \o BE16(Len(acts)) \o Zeros(6) \o acts \o m.Data)
+                               Msg(13, m.Header.Xid, m.BufferId \o m.InPort \o BE16(Len(acts)) \o Zeros(6) \o acts \o EncPayload(m.Data))
     [] m.T = "PortMod"      -> Msg(16, m.Header.Xid, m.PortNo \o Zeros(4) \o m.HWAddr \o Zeros(2) \o m.Config \o m.Mask \o m.Advertise \o Zeros(4))
     [] m.T = "MultipartRequest" -> Msg(18, m.Header.Xid, m.Type \o m.Flags \o Zeros(4) \o EncMpBody(m.Body))
     [] m.T = "VendorHeader" -> Msg(4, m.Header.Xid, m.Vendor \o m.ExperimenterType \o EncVendorData(m.VendorData))
@@ -125,7 +130,7 @@ EncMsg(m) ==
     [] m.T = "FlowRemoved"  -> Msg(11, m.Header.Xid, m.Cookie \o m.Priority \o m.Reason \o m.TableId \o m.DurationSec \o m.DurationNSec
                                    \o m.IdleTimeout \o m.HardTimeout \o m.PacketCount \o m.ByteCount \o EncMatch(m.Match))
     [] m.T = "PacketIn"     -> Msg(10, m.Header.Xid, m.BufferId \o m.TotalLen \o m.Reason \o m.TableId \o m.Cookie \o EncMatch(m.Match)
-                                   \o Zeros(2) \o m.Data)
+                                   \o Zeros(2) \o EncPkt(m.Data))
     [] m.T = "SwitchFeatures" -> Msg(6, m.Header.Xid, m.DPID \o m.Buffers \o m.NumTables \o m.AuxilaryId \o Zeros(2) \o m.Capabilities \o m.Actions)
 TypeCode(m) ==
   CASE m.T = "Header" -> m.Type[1] [] m.T = "Hello" -> 0 [] m.T \in {"ErrorMsg", "VendorError"} -> 1 [] m.T = "SwitchConfig" -> m.Header.Type[1]
@@ -148,6 +153,7 @@ Enc(t) == CASE t.T \in MsgKinds -> EncMsg(t) [] t.T \in ActionKinds -> EncAction
             [] t.T = "PhyPort" -> EncPort(t)
             [] t.T \in {"ControllerID", "TLVTableMod", "TLVTableReply", "BundleControl", "BundleAdd"} -> EncVendorData(t)
             [] t.T \in {"FlowStatsRequest", "AggregateStatsRequest", "PortStatsRequest", "QueueStatsRequest"} -> EncMpBody(t)
+            [] t.T \in PktKinds -> EncPkt(t)
             [] t.T = "raw" -> t.Data
 
 \* ===================================================================== Walk
